@@ -542,10 +542,10 @@ End FlattenProofs.
 (* ---- pragma --------------------------------------------------------------- *)
 (* the constructor argument, when given, wins over the pragma; otherwise the
    pragma (default 1) decides; a pragma error is raised in both cases *)
-Theorem pragma_precedence : forall script arg p,
-  process_pragma (fst (process_embedded_query_expr script)) = Ok p ->
-  effective_level arg script = Ok (match arg with Some k => PLevel k | None => p end).
-Proof. intros script arg p H. unfold effective_level. rewrite H. destruct arg; reflexivity. Qed.
+Theorem pragma_precedence : forall script arg l,
+  process_pragma (fst (process_embedded_query_expr script)) = Ok (PLevel l) ->
+  effective_level arg script = Ok (PLevel (match arg with Some k => k | None => l end)).
+Proof. intros script arg l H. unfold effective_level. rewrite H. destruct arg; reflexivity. Qed.
 
 Theorem pragma_error_propagates : forall script arg e,
   process_pragma (fst (process_embedded_query_expr script)) = Err e ->
